@@ -201,6 +201,8 @@ type Exec struct {
 	Concrete map[string]string // concrete mode: assignment of the nondet inputs
 	Obs      []Observation
 	NoMerge bool
+	Sched   int  // scheduling policy (see pick)
+	yield   bool // policy 2: re-pick after every completed channel operation
 	SkipReach bool // termination-only cases: Reach points are recorded without a satisfiability query
 	MergeBudget int
 	SkipInits bool
@@ -337,14 +339,9 @@ func (ex *Exec) Run(entry *ssa.Function, params []Value) (out Outcome) {
 func (ex *Exec) schedule(main *G) {
 	for {
 		g := ex.cur
-		if g == nil || g.status != gRunnable {
-			g = nil
-			for _, c := range ex.gs {
-				if c.status == gRunnable {
-					g = c
-					break
-				}
-			}
+		if g == nil || g.status != gRunnable || ex.yield {
+			ex.yield = false
+			g = ex.pick()
 			if g == nil {
 				break
 			}
@@ -374,6 +371,38 @@ func (ex *Exec) schedule(main *G) {
 	default:
 		ex.outcome = ODone
 	}
+}
+
+// pick chooses the next runnable goroutine according to the scheduling policy:
+// 0: lowest id; 1: highest id; 2: round robin starting after the current one.
+func (ex *Exec) pick() *G {
+	n := len(ex.gs)
+	switch ex.Sched {
+	case 1:
+		for i := n - 1; i >= 0; i-- {
+			if ex.gs[i].status == gRunnable {
+				return ex.gs[i]
+			}
+		}
+	case 2:
+		start := 0
+		if ex.cur != nil {
+			start = ex.cur.id + 1
+		}
+		for k := 0; k < n; k++ {
+			c := ex.gs[(start+k)%n]
+			if c.status == gRunnable {
+				return c
+			}
+		}
+	default:
+		for _, c := range ex.gs {
+			if c.status == gRunnable {
+				return c
+			}
+		}
+	}
+	return nil
 }
 
 // runUntil steps g until frame depth drops below depth, or frame at depth
